@@ -177,7 +177,8 @@ def r1(ctx, prog):
             if not rl.is_call(f, e, MEMZERO + ("memset",)):
                 return False
             ln = f.nodes[e]["args"][-1]
-            return f.mentions_field(ln, "block_size") and not f.mentions_decl(ln, f.param_id(2))
+            t = rl.canon(f, ln)      # a local that names the length is expanded
+            return "block_size" in t and "$2" not in t
         def not_fiz(lab, p, q):
             return not any(pol and rl.field_is(f, e, "free_is_zero") for e, pol in cfg.facts(lab))
         zfalse = ztrue_edges(f, [3])
@@ -193,7 +194,7 @@ def r1(ctx, prog):
         ctx.check(R, okz, f.where(), "free_is_zero edge: block->next = 0 (the only non-zero word of a zero free block)", key="C04.R1:next")
         for c in f.calls(MEMZERO):
             ln = rl.arg(f, c, 1)
-            ctx.check(R, not f.mentions_decl(ln, f.param_id(2)), f.where(c), "memzero length %s does not depend on the request size" % f.text(ln), key="C04.R1:len")
+            ctx.check(R, "$2" not in rl.canon(f, ln), f.where(c), "memzero length %s does not depend on the request size" % f.text(ln), key="C04.R1:len")
     g = prog.fn("_mi_malloc_generic")
     zf = ZeroFlow(prog)
     probs = zf.zeroed("_mi_malloc_generic", {2})
